@@ -63,6 +63,20 @@ type Case struct {
 	NoSameOwner bool   `json:"no_same_owner,omitempty"`
 	NoSamePerm  bool   `json:"no_same_perm,omitempty"`
 	PreLink     string `json:"prelink,omitempty"` // dest/l exists before the run as a symlink to this target (left by an earlier unpack)
+	// Root is the first, unnamed entry of the archive; nil = a directory (mode 0755). Any kind
+	// is allowed (file, sym, dev); a non-empty Name puts a FILENAME element in front of it.
+	Root *Op `json:"root,omitempty"`
+	// Dest is the state of the destination path before the run: "" = empty directory,
+	// nonempty (directory with content), absent, file, symlink (to DestLink, resolved from dest's parent).
+	Dest     string `json:"dest,omitempty"`
+	DestLink string `json:"destlink,omitempty"`
+}
+
+func (c Case) rootOp() Op {
+	if c.Root == nil {
+		return Op{K: "dir", Perm: 0o755, Mtime: rootMtimeNs / 1_000_000_000}
+	}
+	return *c.Root
 }
 
 func (o Op) fullName() string {
@@ -184,8 +198,29 @@ func buildArchive(c Case) []byte {
 		items      []item
 	}
 	var b []byte
-	b = catar.AppendEntry(b, catar.Entry{FeatureFlags: catar.DefaultFlags, Mode: uint64(catar.S_IFDIR | 0o755), MTimeNs: rootMtimeNs})
-	stack := []open{{entryStart: 0, selfStart: 0}}
+	var stack []open
+	{
+		r := c.rootOp()
+		if r.Name != "" {
+			b = catar.AppendFilename(b, r.fullName())
+		}
+		es := len(b)
+		b = catar.AppendEntry(b, catar.Entry{FeatureFlags: catar.DefaultFlags, Mode: uint64(modeOf(r)),
+			UID: uint64(r.UID), GID: uint64(r.GID), MTimeNs: uint64(r.Mtime) * 1_000_000_000})
+		for _, x := range r.Xattrs {
+			b = catar.AppendXattr(b, x.Key, []byte(x.Val))
+		}
+		switch r.K {
+		case "file":
+			b = catar.AppendPayload(b, gen.RandBytes(r.Size, r.Seed))
+		case "sym":
+			b = catar.AppendSymlink(b, r.Target)
+		case "dev":
+			b = catar.AppendDevice(b, devMajor, r.Minor)
+		default:
+			stack = []open{{entryStart: es, selfStart: 0, name: r.fullName()}}
+		}
+	}
 	closeTop := func() {
 		top := stack[len(stack)-1]
 		stack = stack[:len(stack)-1]
@@ -251,6 +286,14 @@ func normalize(c Case) Case {
 	}
 	ops := make([]Op, len(c.Ops))
 	copy(ops, c.Ops)
+	if c.Root != nil {
+		r := *c.Root
+		r.NoName = false
+		if r.K == "bye" {
+			r.K = "dir"
+		}
+		ops = append(ops, r) // normalised with the others, taken off again below
+	}
 	for i := range ops {
 		o := &ops[i]
 		switch o.K {
@@ -294,7 +337,25 @@ func normalize(c Case) Case {
 		sort.SliceStable(xs, func(i, j int) bool { return xs[i].Key < xs[j].Key })
 		o.Xattrs = xs
 	}
+	if c.Root != nil {
+		r := ops[len(ops)-1]
+		c.Root, ops = &r, ops[:len(ops)-1]
+	}
 	c.Ops = ops
+	switch c.Dest {
+	case "", "nonempty", "absent", "file":
+		c.DestLink = ""
+	case "symlink":
+		c.DestLink = strings.ReplaceAll(c.DestLink, "\x00", "")
+		if c.DestLink == "" {
+			c.DestLink = "outside"
+		}
+	default:
+		c.Dest, c.DestLink = "", ""
+	}
+	if c.Dest != "" && c.Dest != "nonempty" {
+		c.PreLink = "" // needs a real directory to sit in
+	}
 	if c.Workers < 1 {
 		c.Workers = 1
 	}
@@ -335,6 +396,7 @@ func buildTree(root, nonce string) {
 		must(unix.Lsetxattr(filepath.Join(root, l, "xvictim"), "user.sentinel", []byte("orig"), 0))
 		must(unix.Lsetxattr(filepath.Join(root, l, "xvictim"), "trusted.sentinel", []byte("orig"), 0))
 	}
+	mk("sb/l1/l2/l3/realdest") // a directory a destination symlink may point at
 	mk("sb/l1/l2/l3/sib")
 	wr("sb/l1/l2/l3/sib/s", "sibling")
 	mk("abs")
@@ -408,8 +470,24 @@ func runReal(c Case) (o hx.Outcome) {
 	root := filepath.Join(scratch, "root")
 	nonce := hx.Hash8([]byte(scratch))
 	buildTree(root, nonce)
+	// state of the destination path (nothing below resolves a path through dest once it may be a link)
+	destPath := filepath.Join(root, destRel)
+	switch c.Dest {
+	case "nonempty":
+		must(os.MkdirAll(filepath.Join(destPath, "kd"), 0o755))
+		must(os.WriteFile(filepath.Join(destPath, "keep"), []byte("keep"), 0o644))
+		must(os.WriteFile(filepath.Join(destPath, "kd/kf"), []byte("kf"), 0o644))
+	case "absent":
+		must(os.Remove(destPath))
+	case "file":
+		must(os.Remove(destPath))
+		must(os.WriteFile(destPath, []byte("a file where the destination should be"), 0o644))
+	case "symlink":
+		must(os.Remove(destPath))
+		must(os.Symlink(c.DestLink, destPath))
+	}
 	if c.PreLink != "" {
-		must(os.Symlink(c.PreLink, filepath.Join(root, destRel, "l")))
+		must(os.Symlink(c.PreLink, filepath.Join(destPath, "l")))
 	}
 	must(os.WriteFile(filepath.Join(root, "job/a.catar"), archive, 0o644))
 	chunks := 0
@@ -439,7 +517,9 @@ func runReal(c Case) (o hx.Outcome) {
 
 	// ---- which entries did the unpacker get to see
 	var entries []Op // entries[0] is the implicit root
-	entries = append(entries, Op{K: "dir", NoName: true})
+	rootOp := c.rootOp()
+	rootOp.NoName = rootOp.Name == ""
+	entries = append(entries, rootOp)
 	for _, op := range c.Ops {
 		if op.isEntry() {
 			entries = append(entries, op)
@@ -481,6 +561,26 @@ func runReal(c Case) (o hx.Outcome) {
 		o.Class("symlink-in-dest-before-the-run")
 		absTarget = strings.HasPrefix(c.PreLink, "/")
 	}
+	o.Class("root:" + rootOp.K)
+	if rootOp.Name != "" {
+		o.Class("root:named")
+	}
+	destClass := map[string]string{"": "empty-dir", "nonempty": "nonempty-dir", "absent": "absent", "file": "file"}[c.Dest]
+	if c.Dest == "symlink" {
+		destClass = "symlink-to-outside"
+		if c.DestLink == "realdest" {
+			destClass = "symlink-to-inside"
+		}
+	}
+	o.Class("dest:" + destClass)
+	rootAccepted := len(res.Calls) > 0 && res.Calls[0].Err == ""
+	if rootAccepted {
+		o.Class("root:" + rootOp.K + ":accepted:dest:" + destClass)
+	}
+	openDirs := 0 // directories the decoder has open (may go below zero with extra goodbyes)
+	if rootOp.K == "dir" {
+		openDirs = 1
+	}
 	kinds := map[string]bool{}
 	type acc struct{ name, k, target string }
 	hist := [][]acc{nil} // entries accepted so far, per open directory (innermost last)
@@ -494,6 +594,7 @@ func runReal(c Case) (o hx.Outcome) {
 			if len(hist) > 1 {
 				hist = hist[:len(hist)-1]
 			}
+			openDirs--
 			continue
 		}
 		ei++
@@ -506,6 +607,24 @@ func runReal(c Case) (o hx.Outcome) {
 		nk := nameKind(op)
 		kinds[nk] = true
 		o.Class("entry:" + op.K)
+		if openDirs <= 0 {
+			what := "named-entry"
+			if op.NoName {
+				what = "nameless-entry"
+			}
+			if rootOp.K != "dir" {
+				o.Class("root:non-dir:followed-by-" + what)
+				if rootOp.K == "sym" && rootAccepted && !op.NoName {
+					o.Class("root:sym:accepted:followed-by-named-entry")
+					nontrivial = true
+				}
+			} else {
+				o.Class("after-root-goodbye:" + what)
+				if openDirs < 0 {
+					o.Class("after-extra-goodbye:" + what)
+				}
+			}
+		}
 		raw := op.fullName()
 		if !op.NoName && (hasDotDot(raw) || strings.Contains(raw, "/")) {
 			nontrivial = true
@@ -584,6 +703,9 @@ func runReal(c Case) (o hx.Outcome) {
 		if op.K == "dir" {
 			depth++
 			hist = append(hist, nil)
+			if ei < len(res.Calls) && res.Calls[ei].Err == "" {
+				openDirs++
+			}
 		}
 	}
 	for k := range sameName {
@@ -645,6 +767,23 @@ func runReal(c Case) (o hx.Outcome) {
 	}
 	o.Desc = map[string]any{"path": c.Path, "ops": shape, "archive_bytes": len(archive), "chunks": chunks,
 		"prelink": c.PreLink, "entries_reached": nReached, "entries": len(entries), "result": result, "changes_outside": len(changes)}
+	rootDesc := rootOp.K
+	if rootOp.K == "sym" {
+		rootDesc += "->" + shortName(rootOp.Target)
+	}
+	if rootOp.K == "dev" {
+		rootDesc += ":" + rootOp.DevType
+	}
+	if rootOp.Name != "" {
+		rootDesc += " named " + shortName(rootOp.fullName())
+	}
+	destDesc := destClass
+	if c.Dest == "symlink" {
+		destDesc = "symlink->" + shortName(c.DestLink)
+	}
+	o.Desc.(map[string]any)["root"] = rootDesc
+	o.Desc.(map[string]any)["dest"] = destDesc
+	shape = append([]string{"root=" + rootDesc, "dest=" + destDesc}, shape...)
 	o.Key = c.Path + "|" + c.PreLink + "|" + strings.Join(shape, "|")
 	obs := observed{Result: res.Err, Changes: changes, Stderr: res.Stderr, Final: res.Final}
 	if res.Err == "" {
@@ -663,6 +802,44 @@ func runReal(c Case) (o hx.Outcome) {
 	groups := map[string]*group{}
 	var order []string
 	for _, ch := range changes {
+		if ch.Effect == effDest {
+			// The first entry of an archive describes the destination path itself: creating it,
+			// or replacing it by the file/symlink/device the root entry is, is the unpacker's job.
+			// Any later entry that changes the destination path itself is not.
+			byRoot := false
+			for i, cl := range res.Calls {
+				for _, x := range cl.Changed {
+					if x.Path == destRel {
+						byRoot = i == 0
+					}
+				}
+			}
+			if byRoot {
+				o.Class("dest-path-set-by-root-entry")
+				continue
+			}
+		}
+		if ch.Path == parentOf(destRel) && ch.Effect == effMeta && strings.HasPrefix(ch.Detail, "mtime ") && !strings.Contains(ch.Detail, ";") {
+			// Only the mtime of dest's parent differs and nothing else in it: the destination path
+			// was re-created under the same type (file over file, link over link). Fine when the
+			// root entry did it, which is the only entry that may.
+			last := -1
+			for i, cl := range res.Calls {
+				for _, x := range cl.Changed {
+					if x.Path == ch.Path {
+						last = i
+					}
+				}
+			}
+			deferredToo := false
+			for _, x := range res.Final {
+				deferredToo = deferredToo || x.Path == ch.Path
+			}
+			if last == 0 && !deferredToo {
+				o.Class("dest-path-set-by-root-entry")
+				continue
+			}
+		}
 		// the entry that left the object in its final state: the last call that reported this
 		// effect on the path, else the last call that touched the path at all
 		call, anyCall := -1, -1
@@ -685,10 +862,10 @@ func runReal(c Case) (o hx.Outcome) {
 				deferred = true
 			}
 		}
-		mech := mechanism(entries, res.Calls, call)
+		mech := mechanism(entries, res.Calls, call, c.Dest)
 		if deferred {
 			call = len(res.Calls) - 1
-			mech = mechanism(entries, res.Calls, call)
+			mech = mechanism(entries, res.Calls, call, c.Dest)
 			mech = mech[:strings.LastIndexByte(mech, ':')] + ":deferred"
 		}
 		sig := "C18:" + mech + ":" + ch.Effect
@@ -715,7 +892,7 @@ func runReal(c Case) (o hx.Outcome) {
 
 // Name kinds and routes that make up a signature "C18:<name kind>:<route>:<effect>".
 var (
-	sigKinds  = []string{"dotdot-name", "slash-in-name", "absolute-name", "self-slash-name", "nameless-entry", "empty-name", "dot-name", "dir-over-symlink", "plain-name", "unattributed"}
+	sigKinds  = []string{"dotdot-name", "slash-in-name", "absolute-name", "self-slash-name", "nameless-entry", "empty-name", "dot-name", "dir-over-symlink", "entry-behind-symlink-root", "dest-is-symlink", "dest-became-symlink", "plain-name", "unattributed"}
 	sigRoutes = []string{"lexical", "via-symlink", "own-link-followed", "self", "deferred", "unknown"}
 )
 
@@ -725,7 +902,7 @@ var (
 // self = the entry's own path is dest; deferred = work done after the last entry) and the kind
 // of raw name that opened it
 // (looked for in the entry itself, then in earlier entries from the latest backwards).
-func mechanism(entries []Op, calls []callRec, call int) string {
+func mechanism(entries []Op, calls []callRec, call int, destState string) string {
 	if call < 0 || call >= len(calls) || call >= len(entries) {
 		return "unattributed:unknown"
 	}
@@ -783,6 +960,12 @@ func mechanism(entries []Op, calls []callRec, call int) string {
 	})
 	if k == "" {
 		switch {
+		case route == "via-symlink" && calls[call].Cross == "." && entries[0].K == "sym" && calls[0].Err == "":
+			k = "entry-behind-symlink-root" // the archive's root is a symlink and a later entry was resolved through it
+		case route == "via-symlink" && calls[call].Cross == "." && destState == "symlink":
+			k = "dest-is-symlink" // the destination was a symlink before and an entry was resolved through it
+		case route == "via-symlink" && calls[call].Cross == ".":
+			k = "dest-became-symlink"
 		case route == "via-symlink":
 			k = "dir-over-symlink"
 		case calls[call].Kind == "sym":
@@ -809,7 +992,10 @@ var (
 		"/abs/x": true, "/sb/victim": true}
 	xattrKeys  = []string{"user.c18", "trusted.c18", "trusted.c18", "user.sentinel", "trusted.sentinel"}
 	entryKinds = []string{"file", "file", "file", "dir", "dir", "sym", "dev"}
-	belowSym   = []string{"x", "f", "sub", "sub/x", "sub/g", "new/y", ".", ""}
+	// targets of a symlink that sits at the destination path (relative ones resolve from dest's parent)
+	destLinkTargets = []string{"outside", "outside", "../outside", "../../outside", "/sb/outside", "/outside", "/abs", "sib", "realdest", "realdest",
+		"victim", "xvictim", "/victim", "nonexistent", ".", "..", "/"}
+	belowSym = []string{"x", "f", "sub", "sub/x", "sub/g", "new/y", ".", ""}
 )
 
 func genAttrs(t *rapid.T, o *Op) {
@@ -917,6 +1103,52 @@ func genCase(t *rapid.T) Case {
 		c.PreLink = rapid.SampledFrom(symTargets).Draw(t, "prelinktarget")
 	}
 
+	// state of the destination path
+	switch rapid.SampledFrom([]string{"", "", "", "", "", "", "nonempty", "absent", "absent", "file", "symlink", "symlink"}).Draw(t, "dest") {
+	case "nonempty":
+		c.Dest = "nonempty"
+	case "absent":
+		c.Dest, c.PreLink = "absent", ""
+	case "file":
+		c.Dest, c.PreLink = "file", ""
+	case "symlink":
+		c.Dest, c.PreLink = "symlink", ""
+		c.DestLink = rapid.SampledFrom(destLinkTargets).Draw(t, "destlink")
+	}
+	// kind of the root entry: mostly a directory
+	if rk := rapid.SampledFrom([]string{"dir", "dir", "dir", "dir", "dir", "dir", "dir", "dir", "sym", "sym", "sym", "file", "dev", "named-dir"}).Draw(t, "root"); rk != "dir" {
+		r := Op{K: rk}
+		if rk == "named-dir" {
+			r.K, r.Name = "dir", rapid.SampledFrom([]string{"r", "outside", "..", "l"}).Draw(t, "rootname")
+		}
+		if r.K == "sym" {
+			r.Target = rapid.SampledFrom(destLinkTargets).Draw(t, "roottarget")
+		}
+		genAttrs(t, &r)
+		if r.K == "sym" && rapid.IntRange(0, 2).Draw(t, "rootxattr") > 0 {
+			r.Xattrs = nil
+		}
+		c.Root = &r
+		if r.K != "dir" && rapid.IntRange(0, 3).Draw(t, "behind-root") > 0 {
+			// entries behind a root that is no directory: named, nameless, goodbyes, directories
+			var ops []Op
+			for i, n := 0, rapid.IntRange(1, 5).Draw(t, "n"); i < n; i++ {
+				switch rapid.IntRange(0, 7).Draw(t, "what") {
+				case 0:
+					ops = append(ops, Op{K: "bye"})
+				case 1:
+					ops = append(ops, genEntry(t, entryKinds, []string{"nameless"}, nil))
+				case 2:
+					ops = append(ops, genEntry(t, entryKinds, allNameKinds, nil))
+				default:
+					ops = append(ops, plainEntry(t, rapid.SampledFrom(entryKinds).Draw(t, "bk"), rapid.SampledFrom([]string{"pwned", "f", "sub", "victim", "xvictim"}).Draw(t, "bn")))
+				}
+			}
+			c.Ops = ops
+			return c
+		}
+	}
+
 	// any nesting depth: the scenario sits inside 0..3 plain directories
 	wrap := rapid.SampledFrom([]int{0, 0, 0, 1, 1, 2, 3}).Draw(t, "wrap")
 	var ops []Op
@@ -941,7 +1173,26 @@ func genCase(t *rapid.T) Case {
 		}
 	}
 
-	switch rapid.SampledFrom([]string{"random", "random", "sym-child", "sym-child", "sym-dir", "replace", "self", "self", "dotdot-dir", "dotdot-entry", "dotdot-entry", "absolute", "long", "same-name", "same-name", "same-name"}).Draw(t, "scenario") {
+	switch rapid.SampledFrom([]string{"random", "random", "sym-child", "sym-child", "sym-dir", "replace", "self", "self", "dotdot-dir", "dotdot-entry", "dotdot-entry", "absolute", "long", "same-name", "same-name", "same-name", "after-root-bye"}).Draw(t, "scenario") {
+	case "after-root-bye": // entries behind the goodbye of the root directory (and behind extra goodbyes)
+		open := 1
+		for _, o := range ops {
+			if o.K == "dir" {
+				open++
+			} else if o.K == "bye" {
+				open--
+			}
+		}
+		for i, n := 0, open+rapid.IntRange(0, 2).Draw(t, "extra"); i < n; i++ {
+			ops = append(ops, Op{K: "bye"})
+		}
+		for i, n := 0, rapid.IntRange(1, 4).Draw(t, "n"); i < n; i++ {
+			if rapid.IntRange(0, 5).Draw(t, "morebye") == 0 {
+				ops = append(ops, Op{K: "bye"})
+				continue
+			}
+			ops = append(ops, genEntry(t, entryKinds, []string{"plain", "plain", "plain", "nameless", "dotdot-prefix", "slash"}, syms))
+		}
 	case "random":
 		for i, n := 0, rapid.IntRange(1, 8).Draw(t, "n"); i < n; i++ {
 			if rapid.IntRange(0, 7).Draw(t, "bye") == 0 {
@@ -1078,11 +1329,12 @@ var spec = &hx.Spec[Case]{
 	ID:    "C18",
 	Level: "exploration",
 	Rule: "cases = hostile catar element sequences (own encoder, names verbatim, well-formed goodbye tables) unpacked by UnTar(LocalFS) or UnTarIndex(LocalStore) " +
-		"in a chrooted child; non-trivial = the unpacker was handed (all earlier entries accepted) at least one entry whose name has a '..' component or a '/', " +
-		"or an entry whose path crosses a symlink made earlier by the same archive (or left in dest by an earlier unpack), or a directory, a file and a symlink accepted under one name in one directory (work deferred for the directory then meets the link); distinct by (path, sequence of entry kinds, names, symlink targets)",
+		"in a chrooted child, the root entry being a directory, file, symlink or device and the destination path being a directory, absent, a file or a symlink; non-trivial = the unpacker was handed (all earlier entries accepted) at least one entry whose name has a '..' component or a '/', " +
+		"or an entry whose path crosses a symlink made earlier by the same archive (or left in dest by an earlier unpack), or a directory, a file and a symlink accepted under one name in one directory (work deferred for the directory then meets the link), or a named entry behind an accepted root symlink; distinct by (path, sequence of entry kinds, names, symlink targets)",
 	Assumptions: []string{
 		"oracle: lstat fields (type, mode, owner, mtime), link targets, device numbers and file contents of every object in the chroot tree outside dest are equal before and after; directory mtime differences explained by a reported child are folded into that child; atime and ctime are not compared; extended attributes are compared (llistxattr/lgetxattr on the object itself, as root: user.*, trusted.*, security.*)",
-		"the destination exists and is a real directory, empty or holding one symlink 'l' (as an earlier unpack could leave it); nothing but the unpacker touches the tree",
+		"the destination path is an empty directory (optionally holding one symlink 'l', as an earlier unpack could leave it), a directory with content, absent, a file, or a symlink; nothing but the unpacker touches the tree",
+		"'outside' is everything but the destination path: when the destination is or becomes a symlink, objects reached through it are outside; the first entry of the archive may create or replace the destination path itself (a root symlink alone is no violation), later entries may not",
 		"the child records FilesystemWriter calls through a pass-through wrapper around desync.LocalFS (used for attribution and class counting only, the verdict is the parent's snapshot difference)",
 		"archives are chunked in the parent with desync.ChunkStream (min 64, avg 192, max 768) into an uncompressed LocalStore inside the chroot tree",
 		"runs as root: chown, mknod and chroot succeed",
@@ -1093,6 +1345,9 @@ var spec = &hx.Spec[Case]{
 		"xattrs:sym", "xattrs:file", "xattrs:dir", "xattrs:sym:restored:target-exists-outside",
 		"same-name:dir-then-file-then-symlink", "same-name:dir-then-file-then-symlink:target-exists-outside", "same-name:file-then-symlink-then-file",
 		"same-name:dir-then-symlink(refused)", "same-name:prefix-names:dir-then-file-then-symlink", "same-name:length>=4", "outside:metadata-compared",
+		"root:dir", "root:sym", "root:file", "root:dev", "root:non-dir:followed-by-named-entry", "root:non-dir:followed-by-nameless-entry", "root:sym:accepted:followed-by-named-entry",
+		"after-root-goodbye:named-entry", "after-extra-goodbye:named-entry",
+		"dest:empty-dir", "dest:nonempty-dir", "dest:absent", "dest:file", "dest:symlink-to-outside", "dest:symlink-to-inside",
 		"entry:dir", "entry:file", "entry:sym", "entry:dev", "result:error", "result:nil", "entry-path-crosses-archive-symlink", "symlink-in-dest-before-the-run"},
 	Gen: genCase,
 	Run: run,
@@ -1332,9 +1587,60 @@ func TestEnum(t *testing.T) {
 			}
 		}
 	}
+	// root entry kinds x destination states x what follows the root
+	type destState struct{ state, link string }
+	dests := []destState{{"", ""}, {"nonempty", ""}, {"absent", ""}, {"file", ""}, {"symlink", "outside"}, {"symlink", "/sb/outside"}, {"symlink", "realdest"}}
+	roots := []*Op{nil, {K: "file"}, {K: "dev", DevType: "fifo"}, {K: "dev", DevType: "reg"}, {K: "dir", Name: "r"}}
+	for _, tg := range hx.Pick([]string{"outside", "/sb/outside", "../../outside", "xvictim", "realdest", "nonexistent"}, destLinkTargets) {
+		roots = append(roots, &Op{K: "sym", Target: tg})
+	}
+	follows := [][]Op{
+		{{K: "file", Name: "pwned"}},
+		{{K: "dir", Name: "sub"}, {K: "file", Name: "x"}, {K: "bye"}, {K: "sym", Name: "l2", Target: "/abs"}},
+		{{K: "file", NoName: true}, {K: "file", Name: "pwned"}},
+		{{K: "bye"}, {K: "file", Name: "pwned"}, {K: "dev", Name: "xvictim"}},
+		{},
+	}
+	for _, r := range roots {
+		for _, d := range dests {
+			for _, f := range follows {
+				var ops []Op
+				for _, o := range f {
+					ops = append(ops, attr(o))
+				}
+				c := Case{Ops: ops, Workers: 1, Dest: d.state, DestLink: d.link}
+				if r != nil {
+					rr := attr(*r)
+					c.Root = &rr
+				}
+				for _, p := range pathFor() {
+					c.Path = p
+					cases = append(cases, c)
+				}
+			}
+		}
+	}
+	// entries behind the goodbye of the root directory, behind extra goodbyes
+	for _, d := range []destState{{"", ""}, {"absent", ""}, {"symlink", "outside"}} {
+		for _, f := range [][]Op{
+			{{K: "file", Name: "a"}, {K: "bye"}, {K: "file", Name: "x"}},
+			{{K: "bye"}, {K: "bye"}, {K: "file", Name: "x"}, {K: "sym", Name: "l", Target: "../outside"}, {K: "file", Name: "l/x"}},
+			{{K: "bye"}, {K: "dir", Name: "d"}, {K: "file", Name: "x"}, {K: "bye"}},
+			{{K: "dir", Name: "d"}, {K: "bye"}, {K: "bye"}, {K: "bye"}, {K: "sym", Name: "d", Target: "../outside"}, {K: "dir", Name: "d"}, {K: "file", Name: "x"}},
+			{{K: "bye"}, {K: "file", NoName: true}, {K: "sym", NoName: true, Target: "../outside"}, {K: "file", Name: "x"}},
+		} {
+			var ops []Op
+			for _, o := range f {
+				ops = append(ops, attr(o))
+			}
+			for _, p := range pathFor() {
+				cases = append(cases, Case{Path: p, Ops: ops, Workers: 1, Dest: d.state, DestLink: d.link})
+			}
+		}
+	}
 	hx.AddNote("enumerated_cases", len(cases))
 	if runPool(t, cases) {
-		hx.Exhaustive("listed hostile names x {dir,file,symlink,device} x nesting depths; listed symlink targets (made by the archive or present before) x entries beneath/over the link; replace-current-directory sequences for every listed self name (nameless, empty, '.', '/', '//', '/.', './', './/'); entries with user.*/trusted.* xattrs incl. symlinks to existing outside objects; listed same-name and prefix-name sequences (dir, file, symlink in turn) x listed outside targets")
+		hx.Exhaustive("listed hostile names x {dir,file,symlink,device} x nesting depths; listed symlink targets (made by the archive or present before) x entries beneath/over the link; replace-current-directory sequences for every listed self name (nameless, empty, '.', '/', '//', '/.', './', './/'); entries with user.*/trusted.* xattrs incl. symlinks to existing outside objects; listed same-name and prefix-name sequences (dir, file, symlink in turn) x listed outside targets; root entry kinds (dir, named dir, file, fifo, device with file mode, symlink to listed targets) x destination states (empty, with content, absent, file, symlink outside/inside) x listed follow-ups; entries behind the root goodbye")
 	}
 }
 
